@@ -54,7 +54,7 @@ class NotJson(object):
         return "<not json>"
 
 
-def roundtrip(ctx, shape, lkinds, dkind='f', via='json', dims=None, meta='mixed', nan=True):
+def roundtrip(ctx, shape, lkinds, dkind='f', via='json', dims=None, meta='mixed', nan=True, layout=None):
     import json
     nd = len(shape)
     dims = dims or DIMS[:nd]
@@ -69,7 +69,13 @@ def roundtrip(ctx, shape, lkinds, dkind='f', via='json', dims=None, meta='mixed'
     if nd == 0:
         a = ctx.da.DimArray(ctx.np.array(cells[0]))
     else:
-        a = ctx.mk(dims, labels, cells, lkinds=lkinds, kind=dkind if dkind != 'U' else 'O', register=False)
+        a = ctx.mk(dims, labels, cells, lkinds=lkinds, kind=dkind if dkind != 'U' else 'O', register=False, layout=layout if layout != 'T' else None)
+        if layout == 'T':
+            # the written array is a transposed view of another one
+            a = a.transpose(list(reversed(dims)))
+            dims = list(reversed(dims))
+            labels = list(reversed(labels))
+            cells = Ref(list(reversed(dims)), list(reversed(labels)), cells).transpose(list(reversed(range(nd)))).cells
     u = ctx.real('m_units')
     k = ctx.int('m_count')
     if meta == 'mixed':
@@ -261,6 +267,12 @@ def templates():
                     ncell *= n
                 add('rt-%s-%s-%s-%s' % ('x'.join(map(str, shape)) or '0d', ''.join(lks), dk, via), 'roundtrip', cost=0.05 * 2 ** (ncell if dk == 'f' else 0),
                     shape=shape, lkinds=lks, dkind=dk, via=via)
+    # the value buffer is column-major / a strided view / a transposed view (all data kinds; str data are stored as objects)
+    for layout in ('F', 'strided', 'T'):
+        for dk in 'fiU':
+            for via in ('json', 'jsondict'):
+                add('rt-layout-%s-%s-%s' % (layout, dk, via), 'roundtrip', cost=0.3, shape=[2, 3], lkinds=['i', 'U'], dkind=dk, via=via, layout=layout, nan=False)
+        add('rt-layout-%s-3d' % layout, 'roundtrip', cost=0.5, shape=[2, 1, 2], lkinds=['i', 'f', 'U'], dkind='U', layout=layout)
     add('rt-meta-none', 'roundtrip', cost=0.2, shape=[2], lkinds=['i'], meta='none')
     add('rt-meta-one', 'roundtrip', cost=0.2, shape=[2], lkinds=['i'], meta='one')
     # dimension names that are also names of class members
